@@ -370,14 +370,16 @@ func main() {
 			}
 			root := logger.New(mkHandler(kind, d, threshold))
 			// loggers derived before the run
-			pre := [][]chainItem{{}, {{attrs: []any{"svc", "api", slog.Int("shard", 3)}}}, {{group: "req"}, {attrs: []any{"k", strings.Repeat("v", 40)}}}}
+			pre := [][]chainItem{{}, {{attrs: []any{"svc", "api", slog.Int("shard", 3)}}}, {{group: "req"}, {attrs: []any{"k", strings.Repeat("v", 40)}}},
+				{{attrs: []any{"blob", strings.Repeat("w", 1100)}}}, {{group: "big"}, {attrs: []any{"blob", strings.Repeat("x", 5000), "n", 7}}}, {{attrs: []any{"huge", strings.Repeat("y", 20000)}}}}
 			// loggers shared by all goroutines (derived once, before the run)
 			type sharedLogger struct {
 				l     *logger.Logger
 				chain []chainItem
 			}
 			var shared []sharedLogger
-			for _, ch := range [][]chainItem{{}, {{group: "req"}}, {{group: "app"}, {group: "db"}}, {{attrs: []any{"svc", "api"}}, {group: "g"}}} {
+			for _, ch := range [][]chainItem{{}, {{group: "req"}}, {{group: "app"}, {group: "db"}}, {{attrs: []any{"svc", "api"}}, {group: "g"}},
+				{{attrs: []any{"blob", strings.Repeat("z", 1500)}}}} {
 				shared = append(shared, sharedLogger{apply(root, ch), ch})
 			}
 			var fastBarrier sync.WaitGroup
